@@ -1297,6 +1297,8 @@ class Exec:
                 r = ret.v
         finally:
             self.depth -= 1
+        if isinstance(r, BV) and r.const is None and not r.atom:
+            r = self.bind(fn.name + "_r", r)  # name the result once: callers may use it several times
         return r
 
     # ---- statements -------------------------------------------------------------------------
@@ -1304,7 +1306,7 @@ class Exec:
         if pat[0] == "pid":
             if pat[1] == "_":
                 return
-            if isinstance(v, BV) and not (v.atom or v.const is not None):
+            if isinstance(v, BV) and v.const is None and not re.fullmatch(r"[A-Za-z_][A-Za-z0-9_]*", v.lean()):
                 v = self.bind(pat[1], v)
             env[pat[1]] = Slot(v)
             return
